@@ -7,4 +7,4 @@ From Pika Require Import Base.Conc Model.IndexQueue Model.DequeSpec Model.Deque 
 Extraction Language OCaml.
 Extraction "m.ml" iq_trace iq_init iq_locals iq_run popped seq_pop
   dq_trace dq_init dq_locals dq_solo dq_done dq_results dq_obs pushed_vals popped_vals spec_run
-  aba_k aba_progs aba_sched.
+  aba_k aba_progs aba_sched aba2_progs aba2_sched aba3_progs aba3_sched aba4_progs aba4_sched.
